@@ -192,11 +192,21 @@ def main():
         def tied(self, x):
             return z3.simplify(self.eva(x) == self.v(x) % p)
 
+        def _opnd(self, name):
+            h = int(model.get("s_" + name, 0))
+            t = model.get("t_" + name)
+            if t is None:
+                t = next((v for k, v in model.items() if k.startswith("t_" + name + "!")), None)
+            if state["active"] and t is not None and int(t) % p != h % p:
+                # forged run: the operand's WIRE carries the adversary's value, the Python-side value stays honest
+                return rt.LinComb(h, be.privval(int(t)))
+            return rt.PrivVal(h)
+
         def operand(self, name, kind="priv", tie=True):
-            return rt.PrivVal(int(model.get("s_" + name, 0)))
+            return self._opnd(name)
 
         def operand_bool(self, name, tie=True):
-            return pysnark.boolean.LinCombBool(rt.PrivVal(int(model.get("s_" + name, 0))), False)
+            return pysnark.boolean.LinCombBool(self._opnd(name), False)
 
         def public_int(self, name):
             return int(model.get("k_" + name, 0))
@@ -338,11 +348,16 @@ def main():
         if forging:
             pass
         sym.cur().assumed_false = []
+        state.update(active=forging, k=0)
         fn, args, kwargs = K.setup(c, cfg)
+        rec = dict(forged=forging)
+        if cfg.get("_history"):
+            from pyvc import history as _hist
+            rec["history"] = cfg["_history"]
+            rec["history_applies"] = _hist.prelude(c, cfg["_history"], fn, args, kwargs)
+            rec["constraints_of_earlier_call"] = len(be.constraints)
         c.entry = c.snapshot()
         g.n0 = (len(be.pubvals), len(be.privvals), len(be.constraints))
-        state.update(active=forging, k=0)
-        rec = dict(forged=forging)
         watched = []
 
         def watch(x, depth=0):
